@@ -13,10 +13,11 @@ def sh(cmd, cwd=None, timeout=3600, env=None):
     return p.returncode, p.stdout
 phase = sys.argv[1]          # confirm | check
 cid, k, filt = sys.argv[2], sys.argv[3], sys.argv[4]
-wave2 = cid.endswith("b")
+wv = cid[3:]                 # "" (wave 1), "b" (wave 2), "c" (wave 3)
+wave2 = bool(wv)
 PROP = cid[:3].upper()
 checks = sys.argv[5:] or [PROP]
-dst = f"/verif/seeded/{PROP}-{'b' if wave2 else ''}{k}"
+dst = f"/verif/seeded/{PROP}-{wv}{k}"
 src = f"/root/seed/{cid}/{k}"
 wt = f"/root/scratch/seed-{cid}-{k}"
 tgt = f"/root/seedwt/{cid}/target" if os.path.isdir(f"/root/seedwt/{cid}/target") else "/root/scratch/seed-target"
@@ -25,7 +26,7 @@ os.makedirs("/root/scratch", exist_ok=True)
 if phase == "confirm":
     sh(f"git -C /repo worktree remove --force {wt}")
     rc, out = sh(f"git -C /repo worktree add -q --detach {wt} HEAD")
-meta = {"seed": f"{cid}/{k}", "property": PROP, "wave": 2 if wave2 else 1, "demo_filter": filt, "ran": []}
+meta = {"seed": f"{cid}/{k}", "property": PROP, "wave": {"": 1, "b": 2, "c": 3}.get(wv, 9), "demo_filter": filt, "ran": []}
 if phase == "check":
     meta = json.load(open(os.path.join(dst, "meta.json")))
 def step(name, cmd, cwd=wt):
